@@ -49,6 +49,16 @@ def _buf_view(A, x):
     return A.dot(b, r)
 
 
+def _copy_idiom(A, x):
+    b = A.zeros(2, dtype=x)
+    b[0] = x[0] * x[1]
+    b[1] = x[2]
+    c = b + 0              # copy idiom
+    d = 0. + b
+    b[0] = x[2] * x[2]
+    return c * b + d
+
+
 def catalogue():
     P = []
 
@@ -106,6 +116,9 @@ def catalogue():
     add('buffer', _buf1, group='buffer')
     add('buffer-overwrite', _buf_overwrite, group='buffer')
     add('buffer-view-dot', _buf_view, group='buffer')
+    add('copy idiom (b + 0) then overwrite', _copy_idiom, group='buffer')
+    add('prod(x)+sum(x*x)', lambda A, x: A.prod(x) + A.sum(x * x), group='reduce')
+    add('x*prod(x)', lambda A, x: x * A.prod(x), group='reduce')
     # ---- reshape / transpose / reductions ---------------------------------------
     add('reshape', lambda A, x: A.reshape(x, (3, 2)) * 2.0, shape=(2, 3), group='shape')
     add('reshape(T)', lambda A, x: A.reshape(x.T, (6,)) * x.T[0, 1], shape=(2, 3), group='shape')
